@@ -1,2 +1,214 @@
-"""Replay drivers: turn a solver model into a run of the real function (DESIGN §3.6)."""
-DRIVERS = {}
+"""Replay drivers: turn a solver model into a run of the real function (DESIGN §0.7, §3.6).
+
+One generic driver exists: for a package-level function (no receiver, no captured variables) whose parameters and
+results are all integers or booleans, the model's parameter values are passed to the REAL function in a test injected
+with `go test -overlay` (nothing is written into the repository):
+
+  * safety obligations (bounds, div0, make, conv, panic): the violation is confirmed when the call panics;
+  * postconditions: the clause is translated to Go (params = entry values, result/r0.. = what the call returned;
+    non-recursive spec functions of specs/wharf.spec are translated as Go functions) and the violation is confirmed
+    when it evaluates to false on the real result.
+
+Anything else (slices, pointers, interfaces, loops' intermediate states) has no driver: the VIOLATION line then ends
+`no-failing-input-found` and the replay file carries the solver's model and output."""
+import re
+
+from .cparse import parse_expr, ParseError
+
+INT_TYPES = {'int': (-(1 << 63), (1 << 63) - 1), 'int64': (-(1 << 63), (1 << 63) - 1), 'int32': (-(1 << 31), (1 << 31) - 1),
+             'int16': (-(1 << 15), (1 << 15) - 1), 'int8': (-128, 127), 'uint': (0, (1 << 64) - 1), 'uint64': (0, (1 << 64) - 1),
+             'uint32': (0, (1 << 32) - 1), 'uint16': (0, (1 << 16) - 1), 'uint8': (0, 255), 'byte': (0, 255)}
+
+
+class NoTranslation(Exception):
+    pass
+
+
+class GoExpr:
+    """clause AST -> Go source over int64 / bool."""
+
+    def __init__(self, names, specs):
+        self.names = names          # contract name -> Go expression (int64 or bool)
+        self.specs = specs
+        self.helpers = {}
+
+    def tr(self, a):
+        k = a[0]
+        if k == 'num':
+            return 'int64(%d)' % a[1]
+        if k == 'bool':
+            return 'true' if a[1] else 'false'
+        if k == 'name':
+            if a[1] in self.names:
+                return self.names[a[1]]
+            c = self.specs.consts.get(a[1]) if self.specs is not None else None
+            if c is not None:
+                return self.tr(c)
+            raise NoTranslation('name %s' % a[1])
+        if k == 'un':
+            if a[1] == '!':
+                return '(!%s)' % self.tr(a[2])
+            if a[1] == '-':
+                return '(-%s)' % self.tr(a[2])
+            raise NoTranslation('unary %s' % a[1])
+        if k == 'bin':
+            op, x, y = a[1], self.tr(a[2]), self.tr(a[3])
+            if op == '==>':
+                return '(!%s || %s)' % (x, y)
+            if op == '<==>':
+                return '(%s == %s)' % (x, y)
+            if op in ('&&', '||', '==', '!=', '<', '<=', '>', '>=', '+', '-', '*'):
+                return '(%s %s %s)' % (x, op, y)
+            if op == '/':
+                return 'goDiv(%s, %s)' % (x, y)
+            if op == '%':
+                return 'goMod(%s, %s)' % (x, y)
+            if op == '<<':
+                return '(%s << uint(%s))' % (x, y)
+            if op == '>>':
+                return '(%s >> uint(%s))' % (x, y)
+            raise NoTranslation('operator %s' % op)
+        if k == 'cond':
+            return 'ite64(%s, %s, %s)' % (self.tr(a[1]), self.tr(a[2]), self.tr(a[3]))
+        if k == 'call':
+            fn, args = a[1], a[2]
+            if fn == 'old' and len(args) == 1:
+                return self.tr(args[0])
+            if fn in ('min', 'max', 'emod', 'ediv') and len(args) == 2:
+                return 'spec_%s(%s, %s)' % (fn, self.tr(args[0]), self.tr(args[1]))
+            sf = self.specs.funcs_spec.get(fn) if self.specs is not None and hasattr(self.specs, 'funcs_spec') else None
+            if sf is None and self.specs is not None:
+                sf = getattr(self.specs, 'specfuncs', {}).get(fn)
+            if sf is not None and not getattr(sf, 'rec', False) and sf.parse() is not None:
+                self.helper(fn, sf)
+                return 'spec_%s(%s)' % (fn, ', '.join(self.tr(x) for x in args))
+            raise NoTranslation('call %s' % fn)
+        raise NoTranslation('form %s' % k)
+
+    def helper(self, fn, sf):
+        if fn in self.helpers:
+            return
+        self.helpers[fn] = None
+        params = [p[0] if isinstance(p, (tuple, list)) else p for p in sf.params]
+        sorts = [p[1] if isinstance(p, (tuple, list)) else 'int' for p in sf.params]
+        if any(s_ not in ('int', 'bool') for s_ in sorts):
+            raise NoTranslation('spec function %s has non-scalar parameters' % fn)
+        sub = GoExpr({p: p for p in params}, self.specs)
+        sub.helpers = self.helpers
+        body = sub.tr(sf.parse())
+        res = 'bool' if getattr(sf, 'sort', 'int') == 'bool' else 'int64'
+        self.helpers[fn] = 'func spec_%s(%s) %s { return %s }' % (
+            fn, ', '.join('%s %s' % (p, 'bool' if s_ == 'bool' else 'int64') for p, s_ in zip(params, sorts)), res, body)
+
+
+PRELUDE = '''
+func ite64(c bool, a, b int64) int64 { if c { return a }; return b }
+func goDiv(a, b int64) int64 { return a / b }
+func goMod(a, b int64) int64 { return a % b }
+func spec_min(a, b int64) int64 { if a < b { return a }; return b }
+func spec_max(a, b int64) int64 { if a > b { return a }; return b }
+func spec_emod(a, b int64) int64 { r := a % b; if r < 0 { if b < 0 { r -= b } else { r += b } }; return r }
+func spec_ediv(a, b int64) int64 { return (a - spec_emod(a, b)) / b }
+'''
+
+
+def scalar_driver(run, ob, model, doc):
+    fn = run.fn
+    if fn.get('freevars') or fn.get('recv') or fn['name'].startswith('('):
+        return False, 'no replay driver for %s (not a package-level function)' % fn['name']
+    ty = run.ty
+    args = []
+    names = {}
+    for p in fn['params']:
+        t = p['type'].rsplit('.', 1)[-1]
+        un = ty.under(p['type'])[1]
+        base = un.get('name') or t
+        if un.get('kind') != 'basic' or (base not in INT_TYPES and not un.get('boolean')):
+            return False, 'no replay driver for %s (parameter %s is not a scalar)' % (fn['name'], p['name'])
+        val = None
+        for k, v in model.items():
+            if re.match(r'^%s!\d+$' % re.escape(p['name']), k):
+                val = v
+        if val is None:
+            val = False if un.get('boolean') else 0
+        if un.get('boolean'):
+            args.append('true' if val else 'false')
+            names[p['name']] = args[-1]
+        else:
+            lo, hi = INT_TYPES[base]
+            if not (lo <= val <= hi):
+                return False, 'model value %s = %d is outside %s: a counterexample of the mathematical-integer reading only' % (p['name'], val, base)
+            args.append('%s(%d)' % (p['type'].rsplit('/', 1)[-1].split('.', 1)[-1] if '.' in p['type'] else p['type'], val))
+            names[p['name']] = 'int64(%d)' % val
+    results = fn['results']
+    for r in results:
+        un = ty.under(r['type'])[1]
+        if un.get('kind') != 'basic':
+            return False, 'no replay driver for %s (result is not a scalar)' % fn['name']
+    pkg_path, short = run.prog.short(fn['name'])
+    pkgdir = pkg_path.replace('github.com/itchio/wharf', '').strip('/') or '.'
+    pkgname = run.prog.pkgname(pkg_path) if hasattr(run.prog, 'pkgname') else pkg_path.rsplit('/', 1)[-1]
+    rvars = ['r%d' % i for i in range(len(results))]
+    for i, r in enumerate(results):
+        un = ty.under(r['type'])[1]
+        g = rvars[i] if un.get('boolean') else 'int64(%s)' % rvars[i]
+        names['r%d' % i] = g
+        if r.get('name'):
+            names[r['name']] = g
+    if len(results) == 1:
+        names['result'] = names['r0']
+    check = ''
+    helpers = ''
+    expect = 'panic'
+    if ob.kind in ('post', 'assert'):
+        spec = run.specs
+        gx = GoExpr(names, spec)
+        try:
+            clause = ob.clause.parse() if getattr(ob, 'clause', None) is not None else parse_expr(re.sub(r'^@\S+\s+', '', ob.text))
+            cond = gx.tr(clause)
+        except (NoTranslation, ParseError, Exception) as e:
+            return False, 'postcondition not translatable to Go (%s)' % e
+        helpers = '\n'.join(h for h in gx.helpers.values() if h)
+        check = '\tif !(%s) { t.Fatalf("VERIF-REPLAY-CONFIRMED: postcondition false on the real result: %%v", []interface{}{%s}) }\n' % (
+            cond, ', '.join(rvars))
+        expect = 'post'
+    elif ob.kind not in ('bounds', 'div0', 'make', 'conv', 'panic'):
+        return False, 'no replay for obligations of kind %s (an intermediate state, not an input)' % ob.kind
+    call = '%s(%s)' % (short, ', '.join(args))
+    assign = (', '.join(rvars) + ' := ') if rvars else ''
+    use = ''.join('\t_ = %s\n' % v for v in rvars)
+    test = '''package %s
+
+import "testing"
+%s
+%s
+func TestVerifReplay(t *testing.T) {
+	defer func() {
+		if r := recover(); r != nil {
+			t.Fatalf("VERIF-REPLAY-CONFIRMED: panic: %%v", r)
+		}
+	}()
+	%s%s
+%s%s}
+''' % (pkgname, PRELUDE, helpers, assign, call, use, check)
+    from .replay import run_overlay_test
+    repo = getattr(run.prog, 'root', None) or doc.get('repo') or '/repo'
+    rc, out = run_overlay_test(repo, pkgdir, test, '^TestVerifReplay$')
+    doc['replay_test'] = test
+    doc['replay_pkgdir'] = pkgdir
+    doc['replay_run'] = '^TestVerifReplay$'
+    doc['repo'] = repo
+    doc['replay_output'] = out[-3000:]
+    if 'VERIF-REPLAY-CONFIRMED' in out:
+        return True, 'replayed on the real code: %s with %s -> %s' % (short, ', '.join(args), 'panic' if 'panic:' in out else 'postcondition false')
+    if rc != 0:
+        return False, 'replay test did not run (rc=%d): %s' % (rc, out[-300:].replace('\n', ' '))
+    return False, 'the real function does not fail on the model\'s input (%s): the model is not a real counterexample, or the failing state is not reachable through the parameters' % ', '.join(args)
+
+
+class _Drivers(dict):
+    def get(self, name, default=None):
+        return dict.get(self, name) or scalar_driver
+
+
+DRIVERS = _Drivers()
